@@ -38,22 +38,16 @@ import (
 	"github.com/sanonone/kektordb/pkg/engine"
 )
 
-// ---- known findings (generator exclusions) ---------------------------------
+// ---- findings -----------------------------------------------------------------
 //
-// The four gateway defects this check found (thresholds compared with a
-// similarity score, marker pass-through before the firewall, gateway-created
-// cache index without a text analyzer, invalidation by token overlap) are
-// repaired in /repo (4b99be8, 51bc39f, 9e5aa28, d988c8f); their minimal
-// histories are regression replays (replays/C17/reg_*.json) and the generator
-// explores those shapes on every run. One exclusion remains:
-
-// c17FindEP: engine defect owned by C07 (soft-deleted HNSW entry point: vectors
-// added after the entry point was deleted are not linked to it and are never
-// found); it surfaces here once the gateway has deleted a cache entry. Same
-// short name as C07 uses for this root cause.
-const c17FindEP = "deleted-entrypoint"
-
-func c17Excl(name string) bool { return verifkit.Known(name) }
+// The defects this check found are repaired in /repo: thresholds compared with
+// a similarity score (4b99be8), marker pass-through before the firewall
+// (51bc39f), gateway-created cache index without a text analyzer (9e5aa28),
+// invalidation by token overlap (d988c8f), and - root cause in pkg/core/hnsw,
+// owned by C07 - vectors stored after the soft-deleted HNSW entry point were
+// never found, so the cache stopped hitting after an invalidation or expiry
+// (2f41a2a). Their minimal histories are regression replays
+// (replays/C17/reg_*.json); the generator excludes nothing.
 
 // ---- case -------------------------------------------------------------------
 
